@@ -18,7 +18,8 @@ from . import kern
 
 PROPERTY = "C17"
 SUPPORTED = [60 * m for m in range(1, 61)]  # every whole-minute resolution from 1 min to 1 h
-QUICK_RES = SUPPORTED
+QUICK_EXTRA = [90, 141, 1000, 2048, 3599]  # not whole minutes (1.5min, 2.35min, ...); the thorough tier has 71 of them
+QUICK_RES = SUPPORTED + QUICK_EXTRA
 # thorough tier only: resolutions inside 1 min .. 1 h that are not whole minutes (`timingresolution 1.5min`, `2.35min`,
 # `0.0175h` are accepted by the parser: int(value * 60|3600) seconds) - every odd multiple of 30 s and a spread of odd seconds
 FRACTIONAL = sorted({30 * m for m in range(3, 120, 2)} | {61, 67, 89, 141, 333, 1000, 1001, 1799, 2048, 2999, 3333, 3599})
@@ -34,8 +35,8 @@ META = {
                   "Scoreboard.collectIntervals", "scriptplan.core.project.Project.dateToIdx", "Project.idxToDate",
                   "Project.scoreboardSize", "scoreboard_cy.pyx: date_to_idx_fast, idx_to_date_fast, collect_intervals_fast",
                   "time_utils_cy.pyx: project_date_to_idx, project_idx_to_date"],
-    "bounds": "window length 0..2**31 s, indices < 2**31, every whole-minute resolution 60*m, m = 1..60 (thorough: also every "
-              "odd multiple of 30 s below 1 h and 12 further resolutions in whole seconds that are not whole minutes), "
+    "bounds": "window length 0..2**31 s, indices < 2**31, every whole-minute resolution 60*m, m = 1..60, and 90, 141, 1000, 2048, 3599 s "
+              "(thorough: also every odd multiple of 30 s below 1 h and 12 resolutions in odd seconds), "
               "interval scan over tables of <= N slots (quick 6, thorough 9), min duration <= 4 slots; "
               "instants are whole seconds",
     "assumptions": ["one IEEE-754 double division a/b of integer-valued doubles is exact when b | a and otherwise within "
